@@ -461,3 +461,6 @@ def check(run):
     # credentials created through the U2F entry point are new credentials too (rk = false): the storage rule applies
     import c17cer
     run.cov["u2f_ceremonies"] = {k: v for k, v in c17cer.check_ceremony(run, tag="C11-u2f").items() if k not in ("sample", "rule")}
+    # the store's capability changes while the registration waits in the consent prompt (the user picks another vault): the storage
+    # rule and the refusal follow the capability in force when the credential is saved
+    run.cov["prompt_actions"] = ceremony.check_prompt_actions(run, ("C11",))
